@@ -584,7 +584,6 @@ func cmdMicro(prop string, n int, seed uint64, driver, out string) (*Result, err
 		}
 	}
 	res.Evaluations = len(cases)
-	writeKernelSample(out, lines, answers, 40)
-	res.KernelCases = min(40, len(lines))
+	res.KernelCases = writeKernelSample(out, lines, answers, 40)
 	return res, nil
 }
